@@ -236,7 +236,7 @@ func Populate(c *abci.Chain, f Features, r *hx.Rng) *World {
 		w.tx("request verify (pending)", 1, govtypes.NewMsgRequestIdentityRecordsVerify(A(1), A(2), []uint64{1}, coin("ukex", 300)))
 		w.tx("request verify (pending, a2 -> a1)", 2, govtypes.NewMsgRequestIdentityRecordsVerify(A(2), A(1), []uint64{3}, coin("ukex", 300)))
 		w.tx("request verify (approved)", 1, govtypes.NewMsgRequestIdentityRecordsVerify(A(1), A(3), []uint64{2}, coin("ukex", 300)))
-		w.tx("approve verify", 3, govtypes.NewMsgHandleIdentityRecordsVerifyRequest(A(3), 2, true))
+		w.tx("approve verify", 3, govtypes.NewMsgHandleIdentityRecordsVerifyRequest(A(3), 3, true))
 	}
 	if f.Identity && f.UniqueKeyClash {
 		// two accounts hold the same value under a key that is THEN declared unique by a whole-record
@@ -481,7 +481,7 @@ func Populate(c *abci.Chain, f Features, r *hx.Rng) *World {
 			SwapsMin: sdk.NewInt(1), SwapsMax: sdk.NewInt(1000000000), Amount: sdk.ZeroInt(),
 			Tokens: []baskettypes.BasketToken{{Denom: "ubtc", Weight: sdk.NewDec(1), Amount: sdk.ZeroInt(), Deposits: true, Withdraws: true, Swaps: true},
 				{Denom: "frozen", Weight: sdk.NewDec(3), Amount: sdk.ZeroInt(), Deposits: true, Withdraws: true, Swaps: true}}}})
-		w.tx("basket 2 mint", 1, &baskettypes.MsgBasketTokenMint{Sender: A(1).String(), BasketId: 2, Deposit: sdk.NewCoins(coin("ubtc", 3000))})
+		w.tx("basket 2 mint", 1, &baskettypes.MsgBasketTokenMint{Sender: A(1).String(), BasketId: 2, Deposit: sdk.NewCoins(coin("ubtc", 3000), coin("frozen", 3000))})
 		w.tx("basket mint", 1, &baskettypes.MsgBasketTokenMint{Sender: A(1).String(), BasketId: 1, Deposit: sdk.NewCoins(coin("ubtc", 100000), coin("xeth", 100000))})
 		w.tx("basket mint 2", 2, &baskettypes.MsgBasketTokenMint{Sender: A(2).String(), BasketId: 1, Deposit: sdk.NewCoins(coin("ubtc", 50000), coin("xeth", 70000))})
 		w.tx("basket burn", 1, &baskettypes.MsgBasketTokenBurn{Sender: A(1).String(), BasketId: 1, BurnAmount: coin("b1/b1", 1000)})
@@ -534,6 +534,13 @@ func Populate(c *abci.Chain, f Features, r *hx.Rng) *World {
 			_, err := rms.RegisterRecoverySecret(sdk.WrapSDKContext(c.Ctx()), &recoverytypes.MsgRegisterRecoverySecret{Address: A(0).String(), Challenge: hex.EncodeToString(h[:]), Nonce: "00", Proof: ""})
 			return err
 		})
+		// recovery tokens are named after the validator's moniker (unique on a real chain, where validators
+		// are claimed with one): give the genesis validators theirs
+		for _, vi := range []int{0, 3} {
+			if vi < len(c.Validators) && app.CustomStakingKeeper.GetMonikerByAddress(c.Ctx(), A(vi)) == "" {
+				w.tx(fmt.Sprintf("register moniker a%d", vi), vi, govtypes.NewMsgRegisterIdentityRecords(A(vi), []govtypes.IdentityInfoEntry{{Key: "moniker", Info: fmt.Sprintf("val%d", vi)}}))
+			}
+		}
 		w.step("issue recovery tokens", func() error {
 			_, err := rms.IssueRecoveryTokens(sdk.WrapSDKContext(c.Ctx()), &recoverytypes.MsgIssueRecoveryTokens{Address: A(0).String()})
 			return err
